@@ -418,11 +418,24 @@ func pathFacts(b *ssa.BasicBlock) []pathFact {
 // parameters that follow from it; params[i] is the parameter that stands for argument i.
 func helperFacts(f pathFact) (facts []pathFact, callee *ssa.Function, args []ssa.Value) {
 	call, ok := f.Cond.(*ssa.Call)
+	resIdx := 0
 	if !ok {
-		return nil, nil, nil
+		// one of several results: `pos, ok := normalizeIndex(i, n)`
+		ex, isEx := f.Cond.(*ssa.Extract)
+		if !isEx {
+			return nil, nil, nil
+		}
+		call, ok = ex.Tuple.(*ssa.Call)
+		if !ok {
+			return nil, nil, nil
+		}
+		resIdx = ex.Index
 	}
 	h := call.Call.StaticCallee()
-	if h == nil || len(h.Blocks) == 0 || !strings.HasPrefix(fnPkgPath(h), modPath) || h.Signature.Results().Len() != 1 {
+	if h == nil || len(h.Blocks) == 0 || !strings.HasPrefix(fnPkgPath(h), modPath) || resIdx >= h.Signature.Results().Len() {
+		return nil, nil, nil
+	}
+	if bt, isB := h.Signature.Results().At(resIdx).Type().Underlying().(*types.Basic); !isB || bt.Kind() != types.Bool {
 		return nil, nil, nil
 	}
 	var ret *ssa.Return
@@ -433,10 +446,10 @@ func helperFacts(f pathFact) (facts []pathFact, callee *ssa.Function, args []ssa
 			n++
 		}
 	})
-	if n != 1 {
+	if n != 1 || resIdx >= len(ret.Results) {
 		return nil, nil, nil
 	}
-	return expandFact(ret.Results[0], f.Truth), h, call.Call.Args
+	return expandFact(ret.Results[resIdx], f.Truth), h, call.Call.Args
 }
 
 // expandFact takes a boolean value known to be true (or false) apart, see pathFacts.
